@@ -243,6 +243,115 @@ def nontrivial(run, cl):
 
 
 PROP = EngineProperty(ID, oracle, nontrivial)
-shard = PROP.shard_fn(strategy, CASES)
-replay = PROP.replay
+_shard = PROP.shard_fn(strategy, CASES)
+_replay = PROP.replay
+
+# sizes of the one very large file: more than one UDF allocation descriptor (0x3ffff800 bytes each), exact multiples of a
+# descriptor, and more than one ISO9660 extent (0xfffff800 bytes each)
+BIG_SIZES = [0x3ffff800 + 1, 2 * 0x3ffff800, 0x3ffff800 + 5000, 0xfffff800 + 2049, 3 * 0x3ffff800 - 2048, 0x3ffff800 + 2048]
+
+
+def big_case(k, col):
+    """One file of more than 1 GiB between two small ones on a UDF bridge image, mastered into a sparse file: the ISO9660
+    records, the Joliet records and the UDF allocation descriptors of each file must describe the same sectors, in order,
+    those sectors hold the file's bytes, and distinct files share none."""
+    import io
+    import pycdlib
+    from vf.huge import PatternSource, SparseFile, pattern
+    from vf.runner import exc_signature
+    shim.install('UTC')
+    size = BIG_SIZES[k % len(BIG_SIZES)]
+    case = {'big': k, 'size': size}
+    col.case(case, True, ['big-file', 'big-file-udf-descriptors-%d' % ((size + 0x3ffff7ff) // 0x3ffff800)])
+    fid = 11 + k
+    try:
+        iso = pycdlib.PyCdlib()
+        iso.new(interchange_level=3, joliet=3, udf='2.60')
+        iso.add_fp(io.BytesIO(b'a' * 10), 10, '/A.;1', joliet_path='/a', udf_path='/a')
+        iso.add_fp(PatternSource(fid, size), size, '/BIG.;1', joliet_path='/big', udf_path='/big')
+        iso.add_fp(io.BytesIO(b'z' * 3000), 3000, '/Z.;1', joliet_path='/z', udf_path='/z')
+        out = SparseFile()
+        iso.write_fp(out, blocksize=1 << 20)
+        iso.close()
+    except Exception as e:  # noqa
+        col.fail('C04/big/build/' + exc_signature(e), 'big', 'mastering an image with a %d-byte file raised %s: %s' % (size, type(e).__name__, e), case)
+        return
+    img = iso9660.Image(out)
+    info = iso9660.read_iso(img)
+    uinfo = iudf.read_udf(img)
+    for c, msg in info['findings'] + (uinfo or {}).get('findings', []):
+        if c in ('vd-sizes-agree', 'dir-bounds', 'unreadable', 'fe-info-length', 'fe-extent-cover', 'fe-blocks-recorded', 'partition-bounds'):
+            col.fail('C04/big/%s' % c, 'big', msg[:300], case)
+
+    def sectors(exts):
+        out_ = []
+        for a, n in exts:
+            if a is None:
+                return None
+            out_.append((a, (n + 2047) // 2048))
+        # merge adjacent runs so that different ways of cutting the same sectors compare equal
+        merged = []
+        for a, n in out_:
+            if merged and merged[-1][0] + merged[-1][1] == a:
+                merged[-1] = (merged[-1][0], merged[-1][1] + n)
+            else:
+                merged.append((a, n))
+        return merged
+    views = {}
+    for name, ipath, jpath, upath, length in (('a', '/A.;1', '/a', '/a', 10), ('big', '/BIG.;1', '/big', '/big', size), ('z', '/Z.;1', '/z', '/z', 3000)):
+        v = {}
+        e = info['trees']['iso'].get(ipath)
+        if e:
+            v['iso'] = sectors(e['extents'])
+        e = (info['trees'].get('joliet') or {}).get(jpath)
+        if e:
+            v['joliet'] = sectors(e['extents'])
+        e = ((uinfo or {}).get('tree') or {}).get(upath)
+        if e:
+            v['udf'] = sectors(e['extents'])
+        views[name] = v
+        if len(v) != 3:
+            col.fail('C04/big/name-missing/%s' % name, 'big', 'file %s is not in every namespace of the written image: %r' % (name, sorted(v)), case)
+            continue
+        if not (v['iso'] == v['joliet'] == v['udf']):
+            which = 'udf' if v['iso'] == v['joliet'] else 'joliet'
+            col.fail('C04/big/names-describe-different-sectors/%s/%s' % (name if name != 'big' else 'big-file', which), 'big',
+                     'the names of one file (%d bytes) describe different sectors: ISO9660 %r, Joliet %r, UDF %r' % (length, v['iso'][:4], v['joliet'][:4], v['udf'][:4]), case)
+        # the bytes at the start of every run of the large file
+        if name == 'big' and v['udf']:
+            off = 0
+            for a, n in v['udf']:
+                got = img.read(a * 2048, 16)
+                if got != pattern(fid, off, 16, size):
+                    col.fail('C04/big/udf-run-does-not-hold-the-file', 'big', 'the UDF run at sector %d should hold the file from byte %d on' % (a, off), case)
+                    break
+                off += n * 2048
+    runs = []
+    for name, v in views.items():
+        for ns, rr_ in v.items():
+            for a, n in rr_ or []:
+                runs.append((a, a + n, name, ns))
+    runs.sort()
+    for i in range(1, len(runs)):
+        for j in range(i):
+            if runs[j][1] > runs[i][0] and runs[j][2] != runs[i][2]:
+                col.fail('C04/big/overlap/%s+%s' % tuple(sorted((runs[j][2], runs[i][2]))), 'big',
+                         'sectors [%d,%d) of %s (%s) overlap [%d,%d) of %s (%s)' % (runs[j][0], runs[j][1], runs[j][2], runs[j][3], runs[i][0], runs[i][1], runs[i][2], runs[i][3]), case)
+                return
+
+
+def shard(seed, tier, shard_no, nshards):
+    from vf.runner import Collector
+    from vf.campaign import drive
+    col = Collector()
+    drive(strategy(tier), CASES[tier], seed * 64 + shard_no, lambda case: PROP.run_case(case, col))
+    if (tier == 'quick' and shard_no < 2) or (tier == 'thorough' and shard_no < 12):
+        big_case(seed * 2 + shard_no, col)
+    return col.result()
+
+
+def replay(case, col):
+    if isinstance(case, dict) and 'big' in case:
+        return big_case(case['big'], col)
+    return _replay(case, col)
 shrink = PROP.shrink
